@@ -85,6 +85,19 @@ CHECKS["C03"] = dict(
          "(link-attribute) variants have no definition yet and are covered by C01/C02/C04/C06 only.  Fixed point 10^-6, tolerance 4e-5.",
     ref="6/C03")
 
+CHECKS["C02"] = dict(
+    technique="TLA+ Split action (NetworkSM) + design-level TLC check that the n.s.i. definitions are Split-invariant (MC_Nsi) + TLC-enumerated split behaviours replayed on Network + TLC trace validation (Val_C02)",
+    text="NetworkSM specifies the node-splitting construction as an action Split(v,p) on the abstract network; MC_Nsi lets TLC check that "
+         "the n.s.i. definitions of Defs_Network are invariant under Split on every small weighted graph (design level).  Gen_C02 "
+         "enumerates graphs (all undirected <= NU, directed <= ND, families) x nodes x p in {1/4,1/2,3/4} followed by a second split; "
+         "splitted_copy is replayed, its result must equal Split(abs) exactly, and TLC decides NsiAgree (global equal, per-node equal on "
+         "old nodes and twin = v, pairwise equal on old pairs) for every nsi_* method discovered on the object incl. typical_weight, "
+         "sources/targets, add_local_ends, exclude_neighbors and twinness argument patterns.",
+    note="Measures undefined on the instance are withdrawn (nsi_eigenvector_centrality unless undirected+connected+>=3 nodes; "
+         "shortest-path and random-walk betweenness on directed networks); four methods are excluded by name (see evidence). "
+         "Two-group (InteractingNetworks) variants are decided under C11's check.  Tolerance 6e-5.",
+    ref="6/C02")
+
 NOT_APPLICABLE = {
     "C20": "memory safety of compiled kernels is a property of concrete addresses, not of abstract state a TLA+ "
            "specification maintains; nothing binds a PlusCal transcription of index arithmetic to the compiled code "
